@@ -76,8 +76,16 @@ Definition of_obs (o : Obs) : St :=
      susp := list_to_map (o_susp o); vstat := list_to_map (o_vstat o);
      stake := list_to_map (o_stake o); bounty := o_bounty o; malicious := []; height := 0; now := 0 |}.
 
-(* no known-trigger region is left for C19 (all three findings are repaired in /repo) *)
-Definition known_region (c : Cfg) (s : St) (o : Op) : bool := false.
+(* is this step inside the input region of a known trigger (evaluated on the model's pre-state)?
+   C19.guilty_without_validator_record: some open request's YES votes cross and the accused has no
+   validator record in the queue *)
+Definition known_region (c : Cfg) (s : St) (o : Op) : bool :=
+  match o with
+  | OEnd q _ =>
+      let req := required_x c (elect c s q).2 in
+      existsb (fun kr => guilty_without_record c q req kr.2) (map_to_list (reqs s))
+  | _ => false
+  end.
 
 (* first step at which model and implementation differ: (step index, class, known-region-seen);
    class 1 = ok/fail of a transaction, 8 = verdict events, 2..7 see state_diff *)
@@ -125,7 +133,8 @@ Definition byz_frozen (o : Obs) (a : Z) : bool :=
    7 guilty validator's stake not reduced by exactly the penalty  8 bounty credited differs from / exceeds the penalties
    9 a frozen byzantine-fault record changed without a release    10 frozen validator still active after EndBlock
    11 a transaction that its handler's Validate must refuse (not signed by the named validator) was executed
-   the second number (known-finding trigger) is always 0: no known finding is left *)
+   12 a tracked request whose votes cross a share is still open after EndBlock (decision not taken once)
+   known-finding trigger (second number): 2 guilty_without_validator_record *)
 Definition mon_step (c : Cfg) (h t : Z) (prev : Obs) (st : Step) : list (Z * Z) :=
   let next := s_obs st in
   let frozen_kept :=
@@ -182,6 +191,12 @@ Definition mon_step (c : Cfg) (h t : Z) (prev : Obs) (st : Step) : list (Z * Z) 
        let bnts := fold_right Z.add 0 (map (fun v => bounty_of c (penalty c (o_stake_of prev v.1))) guilty) in
        let d := o_bounty next - o_bounty prev in
        if (d =? bnts) && ((d <=? pens * oltDec c) || (bountyDec c <? bountyPct c)) then [] else [(8, 0)]) ++
+      (if (0 <? active) && (1 <? h) then
+         flat_map (fun kr =>
+           if inb kr.1 (o_tracker next) &&
+              negb (verdict_x c (count_choice YES (r_votes kr.2)) (count_choice NO (r_votes kr.2)) req =? VOTING)
+           then [(12, if guilty_without_record c queue req kr.2 then 2 else 0)] else []) (o_reqs next)
+       else []) ++
       flat_map (fun kv => if o_frozen prev kv.1 && o_active next kv.1
                           then [(10, 0)] else []) (o_susp prev)
   end.
